@@ -31,6 +31,16 @@ def set (d : Dict κ ν) (k : κ) (v : ν) : Dict κ ν := (k, v) :: d.filter (f
 def contains (d : Dict κ ν) (k : κ) : Bool := (d.get? k).isSome
 end Dict
 
+/-- `sorted(d.items())` for integer keys (insertion sort: structurally recursive, so the kernel can
+    evaluate it; the keys of a dict are distinct, so stability is not an issue) -/
+def insertByKey {ν : Type} (x : Nat × ν) : List (Nat × ν) → List (Nat × ν)
+  | [] => [x]
+  | y :: ys => if x.1 ≤ y.1 then x :: y :: ys else y :: insertByKey x ys
+
+def sortByKey {ν : Type} : List (Nat × ν) → List (Nat × ν)
+  | [] => []
+  | x :: xs => insertByKey x (sortByKey xs)
+
 /-! ## data of `element_base` -/
 
 structure BaseRow where
@@ -43,6 +53,10 @@ deriving Repr, DecidableEq
 abbrev Base := List BaseRow
 
 def Base.row? (b : Base) (z : Nat) : Option BaseRow := b.find? (·.z = z)
+
+/-- rows of `Generated.ElementBase`: (Z, lower-case name, symbol, symbol code, ions) -/
+def baseOfRaw (raw : List (Nat × String × String × Nat × List Int)) : Base :=
+  raw.map fun (z, name, sym, _, ions) => ⟨z, name, sym, ions⟩
 
 /-! ## heap objects -/
 
@@ -225,12 +239,11 @@ def State.newTable (s : State) (b : Base) (t : String) : State × Res :=
 
 /-- `sorted(self._element.items())` of table `t`: pairs (Z, element id) by increasing Z -/
 def State.sortedElems (s : State) (t : String) : List (Nat × Nat) :=
-  ((s.elems.filter (fun e => e.1.1 = t)).map (fun e => (e.1.2, e.2))).mergeSort
-    (fun x y => x.1 ≤ y.1)
+  sortByKey ((s.elems.filter (fun e => e.1.1 = t)).map (fun e => (e.1.2, e.2)))
 
 /-- `sorted(self._isotopes.items())` of element object `e` -/
 def State.sortedIsos (s : State) (e : Nat) : List (Nat × Nat) :=
-  (s.isosOf e).mergeSort (fun x y => x.1 ≤ y.1)
+  sortByKey (s.isosOf e)
 
 /-! ### `int(text)` and `str.split('-')` as `PeriodicTable.isotope` uses them -/
 
